@@ -121,6 +121,88 @@ def gen_alt(rng, ic, depth, top):
                any(a.word for a in alts), any(a.bol for a in alts), '|'.join(a.pynb for a in alts))
 
 
+CLASSES = {'alpha': ('a-zA-Z', 'a-zA-Z', 'b'), 'digit': ('0-9', '0-9', '1'), 'upper': ('A-Z', 'A-Za-z', 'B'), 'lower': ('a-z', 'a-zA-Z', 'b'),
+           'alnum': ('a-zA-Z0-9', 'a-zA-Z0-9', '1'), 'space': (' \\t\\r\\n\\v\\f', ' \\t\\r\\n\\v\\f', ' '), 'word': ('a-zA-Z0-9_', 'a-zA-Z0-9_', '_')}
+
+
+def gen_bracket(rng, ic):
+    """a bracket expression aimed at the bracket scanners (brk_len, re_groupcount): a backslash as first, middle
+    or LAST member (inside [...] it is an ordinary member), ']' as first member, [:class:]; returns (Pat, a character it matches)"""
+    neg = rng.chance(1, 4)
+    mem = [rng.choice(['a', 'b', 'x', '1', '_', 'é']) for _ in range(rng.range(1, 2))]
+    nv_items, py_items = list(mem), []
+    for c in mem:
+        py_items.append(re.escape(c) + (c.swapcase() if ic and c.isascii() and c.isalpha() else ''))
+    sample = mem[0]
+    form = rng.below(8)
+    if form in (0, 1, 2):                    # backslash first / middle / last
+        pos = [0, len(nv_items) // 2 if len(nv_items) > 1 else 0, len(nv_items)][form]
+        if form == 1 and len(nv_items) == 1:
+            nv_items.append('b'); py_items.append('b' + ('B' if ic else ''))
+            pos = 1
+        nv_items.insert(pos, '\\'); py_items.insert(pos, '\\\\')
+        if rng.chance(1, 3):
+            sample = '\\'
+    elif form == 3:                          # ']' first member, maybe a backslash last as well
+        nv_items.insert(0, ']'); py_items.insert(0, '\\]')
+        if rng.chance(1, 2):
+            nv_items.append('\\'); py_items.append('\\\\')
+        if rng.chance(1, 3):
+            sample = ']'
+    elif form in (4, 5, 6):                  # [:class:] alone, with members, with a backslash last
+        # a matching list with [:space:] also matches the line's own terminating newline (finding KF-BRK-NEWLINE,
+        # canonical inputs in corpus/C14-known.json): [:space:] is generated in non-matching lists only
+        name = rng.choice(sorted(k for k in CLASSES if neg or k != 'space'))
+        rng_nv, rng_ic, smp = CLASSES[name]
+        nv_items.insert(rng.below(len(nv_items) + 1), '[:%s:]' % name)
+        py_items.append(rng_ic if ic else rng_nv)
+        if form == 6:
+            nv_items.append('\\'); py_items.append('\\\\')
+        if rng.chance(1, 2):
+            sample = smp
+    # form 7: plain members
+    nv = '[%s%s]' % ('^' if neg else '', ''.join(nv_items))
+    py = '[%s%s]' % ('^' if neg else '', ''.join(py_items))
+    if neg:
+        sample = rng.choice(['z', '-', '€'])
+    return Pat(nv, py, False), sample
+
+
+def gen_bracket_groups(rng, ic):
+    """bracket expression(s), escaped parentheses and one to four capture groups that the replacement
+    references: the number of groups the set matcher reports must not depend on what the brackets contain.
+    Returns (Pat, text the pattern matches, replacement tokens)"""
+    nv, py, text = [], [], []
+    if rng.chance(1, 3):
+        nv.append('x'); py.append(py_char('x', ic)); text.append('x')
+    br, smp = gen_bracket(rng, ic)
+    nv.append(br.nv); py.append(br.py); text.append(smp)
+    ngrp = rng.range(1, 4)
+    for k in range(ngrp):
+        t = rng.below(7)
+        if t == 0:                           # an escaped parenthesis between the real groups
+            c = rng.choice('()')
+            nv.append('\\' + c); py.append(re.escape(c)); text.append(c)
+        if t == 1:                           # a second bracket between the groups
+            b2, s2 = gen_bracket(rng, ic)
+            nv.append(b2.nv); py.append(b2.py); text.append(s2)
+        body = rng.choice([('x', 'x'), ('ab', 'ab'), ('b|c', 'c'), ('a*', 'aa'), ('[a\\]', '\\'), ('\\(', '('), ('.', 'é')])
+        inner_py = {'x': py_char('x', ic), 'ab': py_char('a', ic) + py_char('b', ic), 'b|c': py_char('b', ic) + '|' + py_char('c', ic),
+                    'a*': py_char('a', ic) + '*', '[a\\]': '[a%s\\\\]' % ('A' if ic else ''), '\\(': '\\(', '.': '.'}[body[0]]
+        opt = rng.chance(1, 5) and body[0] != 'a*'
+        nv.append('(' + body[0] + ')' + ('?' if opt else '')); py.append('(' + inner_py + ')' + ('?' if opt else ''))
+        text.append('' if opt and rng.chance(1, 2) else body[1])
+    toks = []
+    for _ in range(rng.range(1, 4)):
+        if rng.chance(1, 4):
+            c = rng.choice(['<', '>', '-', '€'])
+            toks.append((c, 'lit', c))
+        else:
+            dgt = str(rng.range(1, min(9, ngrp + 1)))
+            toks.append(('\\' + dgt, 'grp', int(dgt)))
+    return Pat(''.join(nv), ''.join(py), False), ''.join(text), toks
+
+
 def gen_pattern(rng, ic):
     t = rng.below(20)
     if t == 0:
@@ -249,6 +331,7 @@ def run(ctx):
             nl = rng.choice([1, 1, 2, 3, 4])
             lines = [''.join(rng.choice(alpha) for _ in range(rng.choice([0, 1, 2, 3, 4, 6, 9]))) for _ in range(nl)]
             cmds = []
+            bracket_case = False
             ncmd = 2 if rng.chance(1, 5) else 1
             for j in range(ncmd):
                 d = rng.choice(DELIMS)
@@ -260,6 +343,11 @@ def run(ctx):
                         if '(a*)*' not in pat.nv:
                             break
                 toks = gen_rep(rng)
+                if pat is not None and rng.chance(1, 5):
+                    pat, text, toks = gen_bracket_groups(rng, ic)
+                    k = rng.below(nl)
+                    lines[k] = rng.choice(['', 'z', 'a ', '\\']) + text + rng.choice(['', 'z', ' b', text])
+                    bracket_case = True
                 g = rng.chance(3, 5)
                 form = rng.below(6)
                 b = rng.range(1, nl)
@@ -278,6 +366,8 @@ def run(ctx):
                 body = 's' + d + (esc_delim(pat.nv, d) if pat else '') + d + esc_delim(rep_src, d) + (d + flags if closing else '')
                 cmds.append({'range': rg, 'text': rtxt + body, 'body': body, 'pat': pat, 'toks': toks, 'g': g})
             kind = 'two commands' if ncmd == 2 else 'one command'
+            if bracket_case:
+                kind += ', bracket expression + referenced groups'
             cases.append({'ic': ic, 'lines': lines, 'cmds': cmds, 'kind': kind, 'corpus': False})
 
     # ---------------------------------------------------------------- implementation
@@ -305,9 +395,10 @@ def run(ctx):
             outs[i] = r2
             if r2.crashed():
                 nhang += 1
-                res.violation({'what': 'the editor %s on a substitute script' % ('hangs' if r2.timed_out else 'crashes (rc=%s)' % r2.rc),
-                               'input': [{'ic': c['ic'], 'lines': c['lines'], 'cmds': [{'text': cm['text']} for cm in c['cmds']]}],
-                               'script': script_of(c).decode('utf-8', 'replace'), 'stderr': r2.err[-1500:].decode('utf-8', 'replace')})
+                res.violation({'what': c.get('what') if c.get('kf') else 'the editor %s on a substitute script' % ('hangs' if r2.timed_out else 'crashes (rc=%s)' % r2.rc),
+                               'input': [{'ic': c['ic'], 'lines': c['lines'], 'cmds': [{'range': list(cm['range']), 'text': cm['text']} for cm in c['cmds']],
+                                          **({'expect': c['expect']} if 'expect' in c else {})}],
+                               'script': script_of(c).decode('utf-8', 'replace'), 'stderr': r2.err[-1500:].decode('utf-8', 'replace')}, kf=c.get('kf'))
 
     # ---------------------------------------------------------------- model (rounds over the command index)
     mstate = [{'kwd': 'none', 'rep': '-', 'buf': [l.encode('utf-8') + b'\n' for l in c['lines']], 'ok': True, 'cut': False} for c in cases]
@@ -355,7 +446,11 @@ def run(ctx):
                 break
             for (i, ln), o in zip(tmap, rout):
                 if o.startswith('C '):
-                    mstate[i]['buf'][ln] = vlib.unhx(o[2:])
+                    nl = vlib.unhx(o[2:])
+                    # lbuf_edit(xb, text, i, i + 1) as the buffer core stores it (modelled by the C01/C04 groups, only
+                    # mirrored here): text without a final newline gets one; empty text leaves no line.  Both arise
+                    # only when the match swallowed the terminator (KF-BRK-NEWLINE)
+                    mstate[i]['buf'][ln] = nl if (nl == b'' or nl.endswith(b'\n')) else nl + b'\n'
                 elif o != 'U':
                     mstate[i]['ok'] = False
                     mstate[i]['why'] = o
